@@ -70,6 +70,10 @@ Definition nt_size (nt : Z) : option Z := assocZ DFKNTsize_switch (Z.land nt (Z.
 (** hdf_unmap_type: the netCDF class of an HDF number type (low byte) *)
 Definition nc_type (nt : Z) : option Z := assocZ hdf_unmap_type_switch (Z.land nt 255).
 
+(** the number types a dataset or a dimension scale may have: the HDF types and their little-endian variants *)
+Definition nt_plain (nt : Z) : bool :=
+  existsb (fun p => (nt =? fst p) || (nt =? fst p + DFNT_LITEND)) hdf_unmap_type_switch.
+
 (** arguments every attribute interface insists on (SDsetattr also refuses native number types) *)
 Definition args_ok (native_ok : bool) (nt count : Z) (data : bytes) : bool :=
   match nt_size nt, nc_type nt with
@@ -135,7 +139,8 @@ Inductive op :=
 | VsAttrs (k fi : Z) | VsAttrInfo (k fi i : Z) | VsFindAttr (k fi : Z) (name : bytes)
 | VgCreate (name : bytes)
 | VgSetAttr (k : Z) (name : bytes) (nt count : Z) (data : bytes)
-| VgAttrs (k : Z) | VgAttrInfo (k i : Z) | VgFindAttr (k : Z) (name : bytes).
+| VgAttrs (k : Z) | VgAttrInfo (k i : Z) | VgFindAttr (k : Z) (name : bytes)
+| HRead (o : op).   (* the same Vdata / Vgroup call on an object attached for reading (Vattach / VSattach "r") *)
 
 (* ---- small list helpers ---------------------------------------------------------------------------- *)
 Definition znth {A} (l : list A) (i : Z) : option A := if i <? 0 then None else nth_error l (Z.to_nat i).
@@ -384,8 +389,9 @@ Definition sd_step_with (hk : hooks) (s : state) (o : op) : state * res :=
     if negb w then (s, RUnspec) else
     match nt_size nt, nc_type nt with
     | Some _, Some _ =>
-      if (Z.land nt DFNT_NATIVE =? 0) && (zlen dims =? rank) && (1 <=? rank) && (rank <=? 4)
-         && forallb (fun x => 1 <=? x) dims && dim_names_ok name && negb (match name with 32 :: _ => true | _ => false end)
+      if nt_plain nt && (zlen dims =? rank) && (1 <=? rank) && (rank <=? 4)
+         && (match dims with d0 :: r => (0 <=? d0) && forallb (fun x => 1 <=? x) r | [] => false end)   (* first may be unlimited (0) *)
+         && dim_names_ok name && negb (match name with 32 :: _ => true | _ => false end)
       then (with_cur s (sd_create c name nt dims) true, ROk [TI (zlen (s_vars c))])
       else (s, RUnspec)
     | _, _ => (s, RUnspec)
@@ -544,8 +550,20 @@ Definition sd_step_with (hk : hooks) (s : state) (o : op) : state * res :=
       | Some k =>
         match nt_size nt, nc_type nt, nth_error (s_dims c) k with
         | Some sz, Some _, Some dm =>
-          if negb (count =? d_size dm) then (s, RFail) else
-          if negb ((zlen data =? count * sz) && (Z.land nt DFNT_NATIVE =? 0)) then (s, RUnspec) else
+          if negb ((d_size dm =? 0) || (count =? d_size dm)) then (s, RFail) else      (* any count on an unlimited dimension *)
+          if negb ((zlen data =? count * sz) && nt_plain nt && (1 <=? count)) then (s, RUnspec) else
+          (* an unlimited dimension's scale only grows: re-set with the same type and at least as many values *)
+          let regrow_ok := match hk_coord hk c k with
+                           | Some j0 => match nth_error (s_vars c) j0 with
+                                        | Some v0 => match v_scale v0 with
+                                                     | Some old => (v_nt v0 =? nt) && (zlen old <=? zlen data)
+                                                     | None => true
+                                                     end
+                                        | None => true
+                                        end
+                           | None => true
+                           end in
+          if (d_size dm =? 0) && negb regrow_ok then (s, RUnspec) else
           let '(c', j) := ensure_coord hk c sl k nt in
           match nth_error (s_vars c') j with
           | Some v => (with_cur s (set_vars c' (zupd (s_vars c') j (upd_var v (v_name v) nt (v_attrs v) (Some data)))) true, ROk [])
@@ -645,7 +663,7 @@ Definition gr_put (h : hcore) (o : option Z) (l : list attr) : hcore :=
 
 Definition field_ok (v : vdata) (fi : Z) : bool := (fi =? _HDF_VDATA) || ((0 <=? fi) && (fi <? vd_nf v)).
 
-Definition h_step (s : state) (o : op) : state * res :=
+Definition h_step_plain (s : state) (o : op) : state * res :=
   let h := h_cur s in
   let w := writable (h_mode s) in
   match o with
@@ -749,11 +767,25 @@ Definition h_step (s : state) (o : op) : state * res :=
   | _ => (s, RUnspec)
   end.
 
+(** an object attached for reading refuses every set (nothing changes); its observers are the usual ones *)
+Definition h_step (s : state) (o : op) : state * res :=
+  match o with
+  | HRead (VsSetAttr _ _ _ _ _ _) | HRead (VgSetAttr _ _ _ _ _) => (s, RFail)
+  | HRead (VsAttrs k fi) => h_step_plain s (VsAttrs k fi)
+  | HRead (VsAttrInfo k fi i) => h_step_plain s (VsAttrInfo k fi i)
+  | HRead (VsFindAttr k fi n) => h_step_plain s (VsFindAttr k fi n)
+  | HRead (VgAttrs k) => h_step_plain s (VgAttrs k)
+  | HRead (VgAttrInfo k i) => h_step_plain s (VgAttrInfo k i)
+  | HRead (VgFindAttr k n) => h_step_plain s (VgFindAttr k n)
+  | HRead _ => (s, RUnspec)
+  | _ => h_step_plain s o
+  end.
+
 Definition is_h_op (o : op) : bool :=
   match o with
   | HStart _ | HEnd | GrCreate _ _ _ _ _ | GrSetAttr _ _ _ _ _ | GrAttrs _ | GrAttrInfo _ _ | GrFindAttr _ _ | GrLookup
   | VsCreate _ _ | VsSetAttr _ _ _ _ _ _ | VsAttrs _ _ | VsAttrInfo _ _ _ | VsFindAttr _ _ _
-  | VgCreate _ | VgSetAttr _ _ _ _ _ | VgAttrs _ | VgAttrInfo _ _ | VgFindAttr _ _ => true
+  | VgCreate _ | VgSetAttr _ _ _ _ _ | VgAttrs _ | VgAttrInfo _ _ | VgFindAttr _ _ | HRead _ => true
   | _ => false
   end.
 
